@@ -7,6 +7,9 @@ VERIF = os.path.dirname(os.path.dirname(os.path.abspath(__file__)))
 
 # id -> (technique, level text, level note, design ref)   -- only checks that exist under mc/checks are claimed
 CHECKS = {
+    "C19": ("explicit-state BFS over registration histories on the real process-wide registries with a registry reference model in lock-step",
+            "Every history of length <=2 over the full event menu (4 kinds incl. extension-definition flavours and extension_name objects x 2 spec versions x 14 name classes x 6 property-name classes; 146 events) and up to length 3 (thorough 4) over the valid/duplicate core menu is executed on the real decorators; after every event the complete registry contents are compared with the model (exactly the previous registry plus that name for that version; refusals change nothing; caller tables untouched) and every name of the menu is probed under both versions through parse, parse_observable, MarkingDefinition and extensions, together with the built-in answers. Registries are restored from a snapshot before each history.",
+            "trusted: registry model and naming rules in mc/checks/c19_registration.py (only unambiguous rules asserted); states merged on the set of registered (version, category, name)", "DESIGN.md §3 C19"),
     "C05": ("explicit-state BFS over versioning histories on the real objects with the wall-clock answer as an explored environment choice",
             "From 11 start forms (2.0/2.1 SDO and SRO as object and as dict, sub-millisecond start, registered custom object, unregistered custom dict, versionable 2.1 SCO) every history of new_version/revoke/marking operations up to depth 2 over the full alphabet (change/add/remove one or two properties, required and unmodifiable and id-contributing properties incl. None values, explicit modified at 6 offsets as string and datetime) and up to depth 4 over a reduced alphabet is executed; at every clock-reading operation all 8 clock answers relative to the current modified (-1 s ... +1 s, incl. sub-precision steps) are explored. Frame invariants, exact change-set application, strict ordering of serialized instants at the version precision and the refusal rules are checked on every transition; all ordered pairs of forms are also run back to back in one process (shared module state).",
             "trusted: clock seam (module attributes replaced, answer frozen per operation); integer timestamp parser mc/ref/tsfmt.py; states merged on the serialized object text", "DESIGN.md §3 C05"),
